@@ -134,12 +134,12 @@ def stepLiteral (s : FState) (ch : Rune) : FState :=
   else if s.backquoted then
     -- literal up to the closing backquote (no escapes inside); the lexer starts a new token after it
     { s.write ch with backquoted := !(ch == rBQ), tokenEnded := (if ch == rBQ then true else s.tokenEnded) }
-  else if !s.escaped && ch == rBS then
-    { ((if s.space then { s.write rSP with space := false } else s).write ch) with escaped := true, tokenEnded := false }
   else if s.escaped then
     -- an escaped newline (outside quotes) separates tokens like white space
     { ((if ch == rLT then { s with heredocEscaped := true } else s).write ch) with
         escaped := false, space := (if ch == rNL && !s.quoted then true else s.space) }
+  else if ch == rBS && s.quoted then
+    { s.write ch with escaped := true }
   else if s.quoted then
     { s.write ch with quoted := !(ch == rDQ), tokenEnded := (if ch == rDQ then true else s.tokenEnded) }
   else if isSpace ch then
@@ -150,13 +150,15 @@ def stepLiteral (s : FState) (ch : Rune) : FState :=
   else
     -- if (space || tokenEnded) && ch == '"' { quoted = true }; … '`' { backquoted = true }
     -- spacePrior := space; space = false; tokenStart := spacePrior || tokenEnded; tokenEnded = false
+    -- (outside of quotes a backslash sets `escaped` and is then an ordinary character of a word)
     stepRegular { s with quoted := (s.space || s.tokenEnded) && ch == rDQ,
-                         backquoted := (s.space || s.tokenEnded) && ch == rBQ, space := false, tokenEnded := false }
+                         backquoted := (s.space || s.tokenEnded) && ch == rBQ, space := false, tokenEnded := false,
+                         escaped := ch == rBS }
       s.space (s.space || s.tokenEnded) ch
 
-/-- `heredocClosingMarker = append(…, ch); if len > len(marker)+1 { closing = closing[1:] }` -/
+/-- `heredocClosingMarker = append(…, ch); if len > len(marker) { closing = closing[1:] }` -/
 def pushClosing (closing marker : List Rune) (ch : Rune) : List Rune :=
-  if (closing ++ [ch]).length > marker.length + 1 then (closing ++ [ch]).drop 1 else closing ++ [ch]
+  if (closing ++ [ch]).length > marker.length then (closing ++ [ch]).drop 1 else closing ++ [ch]
 
 /-- heredoc marker collection and heredoc body -/
 def stepHeredoc (s : FState) (ch : Rune) : FState :=
@@ -170,9 +172,10 @@ def stepHeredoc (s : FState) (ch : Rune) : FState :=
       stepLiteral { s with marker := [], heredoc := 0 } ch
     else ({ s with marker := s.marker ++ [ch] }).write ch
   else if s.heredoc == 2 then
-    -- if we're in a heredoc, all characters are read&write as-is
-    if isSpace ch && (pushClosing s.closing s.marker ch).dropLast == s.marker then
-      stepLiteral { s with marker := [], closing := [], heredoc := 0 } ch
+    -- all characters are read&write as-is; like in the lexer the heredoc ends with the first
+    -- occurrence of the marker, and a new token may start right after it
+    if pushClosing s.closing s.marker ch == s.marker then
+      { s.write ch with marker := [], closing := [], heredoc := 0, tokenEnded := true }
     else
       { s.write ch with closing := if ch == rNL then [] else pushClosing s.closing s.marker ch }
   else stepLiteral s ch
